@@ -131,7 +131,7 @@ def unescape_tla_string(s):
     return s.replace('\\"', '"').replace("\\\\", "\\")
 
 
-def tv_start(spec, trace, tag, timeout=900):
+def tv_start(spec, trace, tag, timeout=1800):
     """Starts one trace-validation JVM; returns a handle for tv_finish."""
     meta = os.path.join(OUT, "tlc", "%s_%d" % (tag, os.getpid()))
     shutil.rmtree(meta, ignore_errors=True)
@@ -170,7 +170,7 @@ def tv_finish(h):
     return res
 
 
-def tv_many(spec, traces, tag, timeout=900, jobs=None):
+def tv_many(spec, traces, tag, timeout=1800, jobs=None):
     """Validates several traces with at most `jobs` JVMs at a time; returns the list of results."""
     jobs = jobs or max(1, min(14, NCPU - 2))
     results = [None] * len(traces)
